@@ -18,6 +18,8 @@ pub struct PtrStats {
     /// Name fields that start beyond offset 0x3fff (unreachable by pointers).
     pub fields_beyond: usize,
     pub max_target: usize,
+    /// Pointers whose target needs the upper six bits (> 255).
+    pub high_targets: usize,
 }
 
 fn v(out: &mut Vec<Viol>, key: &str, detail: String) {
@@ -108,6 +110,9 @@ pub fn check(r: &RefState, m: &DMsg, out: &[u8]) -> (Vec<Viol>, PtrStats) {
                 _ => st.rdata += 1,
             }
             st.max_target = st.max_target.max(target);
+            if target > 255 {
+                st.high_targets += 1;
+            }
             let whose = || match f.rr {
                 Some(i) => format!("{} of record {i} (class {} type {})", f.kind.tag(), m.rrs[i].class, m.rrs[i].typ),
                 None => "QNAME".to_string(),
